@@ -1,19 +1,24 @@
 """Engine `sched` (C06): execution contexts run every scheduled item once, on their own context, losing none.
 
  spec/sched/ManualEventLoop.tla   <-> manual_event_loop.{hpp,cpp} (+ single_thread_context.hpp)
- spec/sched/Trampoline.tla        <-> trampoline_scheduler.{hpp,cpp} (+ inline_scheduler.hpp)
- spec/prim/AtomicIntrusiveQueue.tla <-> detail/atomic_intrusive_queue.hpp
+ spec/sched/Trampoline.tla        <-> trampoline_scheduler.{hpp,cpp}, inline_scheduler.hpp
+ spec/sched/AtomicQueue.tla       <-> detail/atomic_intrusive_queue.hpp
  spec/sched/StaticThreadPool.tla  <-> static_thread_pool.{hpp,cpp}
  spec/sched/NewThread.tla         <-> new_thread_context.hpp
  spec/sched/SchedMon.tla          the monitor (only source of MonitorReject alarms)
+ wrappers executed on the same scenarios: any_scheduler, any_scheduler_ref (any_scheduler.hpp),
+ schedule_with_subscheduler (schedule_with_subscheduler.hpp)
 
  1. generate scenarios (programs over start/stopitem/stopctx/run/await/destroy; completion bodies)
  2. TLC: invariants on every interleaving + liveness (accepted ~> ran, termination) per module
- 3. export every transition (ManualEventLoop) / every input with its predicted completion order (Trampoline),
-    replay on the real code (guided), plus bounded-preemption DFS and seeded random schedules of the real contexts
-    with ALL threads (also the library-created ones) under the controller via interposed pthread functions
+ 3. export every transition (ManualEventLoop, AtomicQueue, StaticThreadPool, NewThread) / every input with its predicted
+    completion order (Trampoline), replay edge-covering / random walks on the real code (guided), plus
+    bounded-preemption DFS and seeded random schedules of the real contexts with ALL threads (also the library-created
+    ones) under the controller via interposed pthread functions; spurious condition-variable wake-ups are a
+    controller choice
  4. validate every recorded execution against SchedMon with TLC; a controller-proven deadlock is a lost item."""
-import itertools, json, os, sys, time
+import hashlib, itertools, json, os, re, sys, threading, time
+from concurrent.futures import ThreadPoolExecutor
 
 sys.path.insert(0, os.path.join(os.path.dirname(__file__), "..", "..", "tools"))
 import vlib
@@ -23,31 +28,33 @@ X = lambda i: ["stopitem", i]
 STOP = ["stopctx", 0]
 RUN = ["run", 0]
 AW = ["await", 0]
-AWN = lambda n: ["awaitn", n]
+AWACC = lambda n: ["awaitacc", n]
 DESTROY = ["destroy", 0]
 LIB = ["inplace_stop_token.cpp", "async_stack.cpp", "exception.cpp", "manual_event_loop.cpp", "static_thread_pool.cpp", "trampoline_scheduler.cpp"]
+HERE = os.path.dirname(os.path.abspath(__file__))
+BASE = dict(mel=0, tramp=1000, aq=3000, stc=4000, pool=5000, ntc=6000)      # scenario ids are unique across groups
 
 
 class Gen:
-    def __init__(self, ctx):
-        self.ctx, self.out, self.seen = ctx, [], set()
+    def __init__(self, ctx, base=0):
+        self.ctx, self.out, self.seen, self.base = ctx, [], set(), base
 
-    def add(self, prog, body=None, items=None, **kw):
+    def add(self, prog, body=None, items=None, ctx=None, **kw):
         ops = [o for p in prog for o in p] + [o for b in (body or {}).values() for o in b]
         n = items or max([o[1] for o in ops if o[0] in ("start", "stopitem")] or [0])
         b = [list((body or {}).get(i, [])) for i in range(1, n + 1)]
-        sc = dict(ctx=self.ctx, items=n, prog=[list(p) for p in prog], body=b, **kw)
+        sc = dict(ctx=ctx or self.ctx, items=n, prog=[list(p) for p in prog], body=b, **kw)
         key = json.dumps(sc, sort_keys=True)
         if key in self.seen:
             return
         self.seen.add(key)
-        sc["id"] = len(self.out) + 1
+        sc["id"] = self.base + len(self.out) + 1
         self.out.append(sc)
 
 
 def gen_mel(tier):
     """manual_event_loop: thread 1 is the consumer (run()), threads 2..4 produce / stop."""
-    g = Gen("mel")
+    g = Gen("mel", BASE["mel"])
     # A: stop only after everything ran (lost wake-up => deadlock; FIFO)
     g.add([[RUN], [S(1), S(2)], [AW, STOP]])
     g.add([[RUN], [S(1)], [S(2)], [AW, STOP]])
@@ -89,244 +96,31 @@ def gen_mel(tier):
     return g.out
 
 
-def run_real(ctx, exe, name, scns, runs, stats):
-    """runs: list of (mode, args, total).  Queues the driver runs; they are executed in parallel by flush_runs()."""
-    for mode, args, total in runs:
-        stats.setdefault("queue", []).append((name, scns, mode, args, total, exe))
-
-
-def parse_deadlock(d):
-    import re
-    m = re.search(r"deadlock in scenario (\d+) schedule (\[[^\]]*\]) threads:(.*)", d.get("stderr_tail", "") or "")
-    return (int(m.group(1)), json.loads(m.group(2)), m.group(3).strip()) if m else (None, None, None)
-
-
-def exec_one(ctx, job, stats):
-    name, scns, mode, args, total, exe = job
-    rep = ctx.rep
-    t0 = time.time()
-    lp = os.path.join(ctx.work, "log_%s_%s.ndjson" % (name, mode))
-    sums, deaths = vlib.run_batches(ctx, exe, args, total, lp, timeout=1500, max_deaths=6)
-    execs = sum(s["execs"] for s in sums)
-    rep.evaluations += execs
-    for s in sums:
-        rep.drift += s["drift"]
-        rep.unguided += s["unguided"] if mode == "guided" else 0
-        if s.get("first_drift"):
-            rep.note("%s/%s drift: %s" % (name, mode, s["first_drift"]))
-        if s.get("obs_mismatch"):
-            rep.note("%s/%s: %d executions whose completion order differs from the specification's prediction "
-                     "(sent to the monitor) first: %s" % (name, mode, s["obs_mismatch"], s.get("first_mismatch")))
-        for k, v in (s.get("sites") or {}).items():
-            stats.setdefault("sites", {}).setdefault(k, 0)
-            stats["sites"][k] += v
-    for d in deaths:
-        unit = d["x"]
-        sid, sched, where = parse_deadlock(d)
-        scn = next((x for x in scns if x["id"] == sid), None)
-        what = "%s in %s/%s unit %s: %s %s" % (d["event"], name, mode, unit, d.get("asan") or "", d.get("frame") or "")
-        rec = dict(engine="sched", ctx=name, mode=mode, event=d["event"], unit=unit, asan=d.get("asan"), scn=sid,
-                   frame=d.get("frame"), where=d.get("where"), what=what, detail=d.get("stderr_tail", ""),
-                   scenario=scn, schedule=sched, blocked_at=where)
-        if d["event"] == "Hang":
-            # a thread did not reach a schedule point for 20 s: harness/tool problem (never an alarm)
-            stats.setdefault("hangs", []).append(what)
-        elif d["event"] == "Deadlock":
-            # progress failure: the controller proved that no thread can move while an item / thread is unfinished
-            rec["what"] = "lost item / lost wake-up (%s): scenario %s threads blocked at %s" % (what, json.dumps(scn and scn["prog"]), where)
-            rep.violation(rec)
-        else:
-            rep.oos.append(rec)       # C06 is not a lifetime property: memory events are out-of-scope observations
-            rep.note("out-of-scope memory/crash event: " + what + " " + (d.get("stderr_tail", "") or "")[-300:])
-    rep.note("%s/%s: %d executions in %.1fs" % (name, mode, execs, time.time() - t0))
-    return lp
-
-
-def flush_runs(ctx, stats):
-    """Execute the queued driver runs (VERIF_JOBS in parallel: each driver process runs one thread at a time),
-    then validate ALL recorded executions against SchedMon in one TLC run."""
-    from concurrent.futures import ThreadPoolExecutor
-    rep = ctx.rep
-    jobs = stats.pop("queue", [])
-    with ThreadPoolExecutor(max_workers=max(1, min(vlib.NCPU, 8))) as ex:
-        logs = list(ex.map(lambda j: exec_one(ctx, j, stats), jobs))
-    if stats.get("hangs"):
-        raise vlib.Broken("driver hang (no schedule point reached for 20 s): " + "; ".join(stats["hangs"][:3]))
-    allp = os.path.join(ctx.work, "log_all.ndjson")
-    byscn = {}
-    with open(allp, "w") as out:
-        for job, lp in zip(jobs, logs):
-            name, scns = job[0], job[1]
-            for s in scns:
-                byscn[(s["ctx"], s["id"], name)] = s
-            for ln in open(lp):
-                out.write(ln)
-                if '"e":"AssertFail"' in ln:
-                    stats["asserts"] = stats.get("asserts", 0) + 1
-                    if stats["asserts"] <= 3:
-                        rep.oos.append(dict(engine="sched", ctx=name, mode=job[2], event="AssertFail", detail=ln.strip()))
-            os.remove(lp)
-    t0 = time.time()
-    n, rejected = vlib.validate_batched(ctx, "sched", "SchedMon", allp)
-    sampled = set()
-    for ex in vlib.split_executions(allp):
-        evs = ex[1]
-        if len(evs) > 4:
-            rep.distinct.add(hash("".join(evs[1:-1])))
-        hdr = json.loads(evs[0])
-        if hdr.get("mode") == "random" and hdr.get("ctx") not in sampled and len(sampled) < 3 and len(evs) > 8:
-            sampled.add(hdr.get("ctx"))
-            rep.sample(dict(kind="recorded-trace", ctx=hdr.get("ctx"), events=[json.loads(x) for x in evs[:40]]), cap=3)
-    for rj in rejected:
-        evs = rj["events"]
-        hdr = evs[0] if evs else {}
-        sched = [e.get("sched") for e in evs if e.get("e") == "End"]
-        bad = evs[rj["prefix"]] if rj.get("prefix") is not None and rj["prefix"] < len(evs) else None
-        sid, kind, mode = hdr.get("scn"), hdr.get("ctx"), hdr.get("mode")
-        scn = next((v for (c, i, nm), v in byscn.items() if c == kind and i == sid), None)
-        rep.violation(dict(engine="sched", ctx=kind, mode=mode, event="MonitorReject", unit=hdr.get("x"), k=hdr.get("k"), scn=sid,
-                           what="SchedMon rejects an execution of %s (scenario %s) recorded in %s mode at event %s (matched %s of %s events)"
-                                % (kind, json.dumps(scn and scn["prog"]), mode, json.dumps(bad), rj.get("prefix"), rj.get("total")),
-                           scenario=scn, schedule=sched[0] if sched else None, rejected_event=bad, events=evs))
-    if stats.get("asserts"):
-        rep.note("out-of-scope: %d UNIFEX_ASSERT failures recorded (execution continued, judged by the monitor)" % stats["asserts"])
-    rep.note("validation of %d executions against SchedMon: %.1fs" % (n, time.time() - t0))
-    os.remove(allp)
-
-
-def part_mel(ctx, exe, stats):
-    rep = ctx.rep
-    scns = gen_mel(ctx.tier)
-    sp = os.path.join(ctx.work, "mel_scenarios.json")
-    json.dump(scns, open(sp, "w"))
-    edges = os.path.join(ctx.work, "mel_edges.ndjson")
-    vlib.model_check(ctx, "sched", "ManualEventLoopMC", env={"SCENARIOS": sp, "EDGES": edges}, workers=1, timeout=1500)
-    vlib.model_check(ctx, "sched", "ManualEventLoopLive", cfg="ManualEventLoopLive.cfg", env={"SCENARIOS": sp}, timeout=1500)
-    adj, inits, nedges = vlib.read_edges(edges)
-    walks = vlib.edge_cover(adj, inits)
-    ncover = len(walks)
-    if ctx.quick and len(walks) > 400:
-        walks = ctx.rng.sample(walks, 400)     # the full edge cover is replayed in the thorough tier
-    if ctx.tier == "thorough":
-        walks += vlib.random_walks(adj, inits, 1000, ctx.rng)
-    bp = os.path.join(ctx.work, "mel_behaviours.ndjson")
-    seen, nb = set(), 0
-    with open(bp, "w") as f:
-        for w in walks:
-            if not w or not w[-1]["done"]:
-                continue
-            sched = [[e["th"], e["pc"]] for e in w]
-            b = dict(scn=w[0]["scn"], sched=sched, ran=w[-1]["obs"]["ran"])
-            k = json.dumps([b["scn"], sched])
-            if k in seen:
-                continue
-            seen.add(k)
-            f.write(json.dumps(b) + "\n")
-            nb += 1
-            if nb <= 1:
-                rep.sample(dict(kind="tlc-behaviour", ctx="mel", scenario=scns[b["scn"] - 1], schedule=sched, expect_ran=b["ran"]), cap=1)
-    os.remove(edges)
-    rep.note("mel: %d scenarios, edges exported %d, edge-covering walks %d, distinct behaviours %d" % (len(scns), nedges, len(walks), nb))
-    q = ctx.quick
-    runs = [("guided", ["--mode", "guided", "--scenarios", sp, "--behaviours", bp], nb),
-            ("dfs", ["--mode", "dfs", "--scenarios", sp, "--bound", 2 if q else 3, "--cap", 40 if q else 400], len(scns)),
-            ("random", ["--mode", "random", "--scenarios", sp, "--seed", ctx.seed, "--cap", 20 if q else 100], len(scns))]
-    run_real(ctx, exe, "mel", scns, runs, stats)
-
-
-def part_tramp(ctx, exe, stats):
-    """trampoline_scheduler / inline_scheduler: TLC enumerates the inputs and predicts the completion sequence."""
-    rep = ctx.rep
-    out = os.path.join(ctx.work, "tramp_inputs.ndjson")
-    env = {"OUT": out, "MAXNODES": 4 if ctx.quick else 5, "MAXCHAIN": 12}
-    vlib.model_check(ctx, "sched", "TrampolineMC", env=env, workers=1, timeout=1500)
-    scns, behs = [], []
-    for ln in open(out):
-        r = json.loads(ln)
-        sc = r["scn"]
-        if any(x > sc["items"] for x in sc["stopped"]):
-            continue
-        prog = [X(x) for x in sc["stopped"]] + [S(x) for x in sc["roots"]]
-        d = dict(id=len(scns) + 1, ctx="tramp" if sc["maxd"] > 0 else "inline", items=sc["items"], maxd=sc["maxd"],
-                 prog=[prog], body=[[S(c) for c in b] for b in sc["body"]])
-        scns.append(d)
-        behs.append(dict(scn=d["id"], ran=[[x[0], x[1]] for x in r["ran"]]))
-    sp = os.path.join(ctx.work, "tramp_scenarios.json")
-    bp = os.path.join(ctx.work, "tramp_behaviours.ndjson")
-    json.dump(scns, open(sp, "w"))
-    with open(bp, "w") as f:
-        for b in behs:
-            f.write(json.dumps(b) + "\n")
-    rep.note("tramp/inline: %d inputs enumerated by TLC (chains 0..12, forests <= %d nodes, depth limits 0(inline)..4, "
-             "optionally one pre-stopped item)" % (len(scns), env["MAXNODES"]))
-    rep.sample(dict(kind="tlc-input", ctx="tramp", scenario=scns[len(scns) // 2], expect_ran=behs[len(scns) // 2]["ran"]), cap=1)
-    run_real(ctx, exe, "tramp", scns, [("seq", ["--mode", "seq", "--scenarios", sp, "--behaviours", bp], len(behs))], stats)
-
-
-def gen_aq():
-    g = Gen("aq")
-    for c in ("consume", "consume2"):
+def gen_aq(tier):
+    g = Gen("aq", BASE["aq"])
+    for c in ("consume", "consume2", "consume3"):
         g.add([[[c, 0]], [S(1), S(2)], [S(3)]])
         g.add([[[c, 0]], [S(1)], [S(2)], [S(3)]])
         g.add([[[c, 0]], [S(1), S(2)], [S(3), S(4)]])
-    g2 = Gen("aq2")
-    g2.add([[S(1), S(2)], [S(3)]])
-    g2.add([[S(1)], [S(2)], [S(3)]])
-    g2.add([[S(1), S(2)], [S(3), S(4)]])
-    g2.add([[S(1)], [S(2)], [S(3)], [S(4)]])
-    out = g.out + g2.out
-    for i, s in enumerate(out):
-        s["id"] = i + 1
-    return out
-
-
-def part_aq(ctx, exe, stats):
-    rep = ctx.rep
-    scns = gen_aq()
-    sp = os.path.join(ctx.work, "aq_scenarios.json")
-    json.dump(scns, open(sp, "w"))
-    edges = os.path.join(ctx.work, "aq_edges.ndjson")
-    mc = [s for s in scns if s["items"] <= 3] if ctx.quick else scns
-    spm = os.path.join(ctx.work, "aq_scenarios_mc.json")
-    json.dump(mc, open(spm, "w"))
-    vlib.model_check(ctx, "sched", "AtomicQueueMC", env={"SCENARIOS": spm, "EDGES": edges}, workers=1, timeout=1500)
-    vlib.model_check(ctx, "sched", "AtomicQueueLive", cfg="AtomicQueueLive.cfg", env={"SCENARIOS": spm}, timeout=1500)
-    adj, inits, nedges = vlib.read_edges(edges)
-    os.remove(edges)
-    walks = vlib.random_walks(adj, inits, 300 if ctx.quick else 2000, ctx.rng)
-    bp = os.path.join(ctx.work, "aq_behaviours.ndjson")
-    seen, nb = set(), 0
-    with open(bp, "w") as f:
-        for w in walks:
-            if not w or not w[-1]["done"]:
-                continue
-            sched = [[e["th"], e["pc"]] for e in w]
-            k = json.dumps([w[0]["scn"], sched])
-            if k in seen:
-                continue
-            seen.add(k)
-            f.write(json.dumps(dict(scn=w[0]["scn"], sched=sched, ran=w[-1]["obs"]["ran"])) + "\n")
-            nb += 1
-    rep.note("aq: %d scenarios (%d model-checked), edges exported %d, %d distinct random behaviours for guided replay" % (len(scns), len(mc), nedges, nb))
-    q = ctx.quick
-    runs = [("guided", ["--mode", "guided", "--scenarios", sp, "--behaviours", bp], nb),
-            ("dfs", ["--mode", "dfs", "--scenarios", sp, "--bound", 2 if q else 3, "--cap", 100 if q else 1000], len(scns)),
-            ("random", ["--mode", "random", "--scenarios", sp, "--seed", ctx.seed, "--cap", 40 if q else 200], len(scns))]
-    run_real(ctx, exe, "aq", scns, runs, stats)
-
-
-AWACC = lambda n: ["awaitacc", n]
+    g.add([[S(1), S(2)], [S(3)]], ctx="aq2")
+    g.add([[S(1)], [S(2)], [S(3)]], ctx="aq2")
+    g.add([[S(1), ["trylock", 0]], [["trylock", 0], S(2)], [S(3)]], ctx="aq2")
+    g.add([[S(1), S(2)], [S(3), S(4)]], ctx="aq2")
+    g.add([[S(1)], [S(2)], [S(3)], [S(4)]], ctx="aq2")
+    g.add([[S(1), ["trylock", 0]], [S(2)], [["trylock", 0]], [S(3)]], ctx="aq2")
+    return g.out
 
 
 def gen_ctx(kind, tier):
     """single_thread_context / static_thread_pool / new_thread_context: the context's own threads are adopted."""
-    g = Gen(kind)
+    g = Gen(kind, BASE[kind])
     kw = dict(workers=2) if kind == "pool" else {}
     g.add([[S(1), S(2), AWACC(3), DESTROY], [S(3)]], **kw)
     g.add([[AWACC(2), DESTROY], [S(1)], [S(2)]], **kw)
     g.add([[S(1), AWACC(2), AW, DESTROY]], body={1: [S(2)]}, **kw)
     g.add([[X(1), S(1), S(2), AWACC(2), DESTROY]], **kw)
     g.add([[S(1), AWACC(2), DESTROY], [S(2), X(2)]], **kw)
+    g.add([[S(1), AWACC(1), DESTROY]], **kw)
     if kind == "pool":
         g.add([[S(1), S(2), AWACC(3), STOP, DESTROY], [S(3)]], **kw)
         g.add([[S(1), S(2), S(3), AWACC(3), DESTROY]], **kw)
@@ -339,93 +133,427 @@ def gen_ctx(kind, tier):
     return g.out
 
 
-def part_specs(ctx):
-    """Model checking of the contexts that are bound by monitor-validated executions only (no guided replay)."""
-    def nobody(kind, tier):
-        out = [dict(s) for s in gen_ctx(kind, tier) if not any(s["body"])]
-        for i, s in enumerate(out):
-            s["id"] = i + 1
-        return out
-    pool = nobody("pool", ctx.tier)
-    if ctx.quick:      # 2 workers, <= 2 items (3 items: 1e6 states, 4 items: 5e6 states -> thorough tier)
-        pool = [s for s in pool if s["items"] <= 2]
-    else:
-        pool = [s for s in pool if s.get("workers", 2) == 2]
-    pp = os.path.join(ctx.work, "pool_mc.json")
-    json.dump(pool, open(pp, "w"))
-    vlib.model_check(ctx, "sched", "StaticThreadPoolMC", env={"SCENARIOS": pp}, timeout=2400)
-    pl = os.path.join(ctx.work, "pool_live.json")
-    json.dump(pool[:2] if ctx.quick else [s for s in pool if s["items"] <= 2], open(pl, "w"))
-    vlib.model_check(ctx, "sched", "StaticThreadPoolMC", cfg="StaticThreadPoolLive.cfg", env={"SCENARIOS": pl}, timeout=2400)
-    ntc = nobody("ntc", "thorough")
-    np_ = os.path.join(ctx.work, "ntc_mc.json")
-    json.dump(ntc, open(np_, "w"))
-    vlib.model_check(ctx, "sched", "NewThreadMC", env={"SCENARIOS": np_}, timeout=1500)
-    ctx.rep.note("model-checked without replay: static_thread_pool %d scenarios (2 workers), new_thread_context %d scenarios" % (len(pool), len(ntc)))
+def wrapped(scns, wrap, keep=None):
+    out = [dict(s, wrap=wrap) for s in scns if keep is None or keep(s)]
+    return out
 
 
-def part_ctx(ctx, exe, stats, kind):
-    scns = gen_ctx(kind, ctx.tier)
-    sp = os.path.join(ctx.work, "%s_scenarios.json" % kind)
-    json.dump(scns, open(sp, "w"))
-    q = ctx.quick
-    cap_dfs = {"stc": 60, "ntc": 60, "pool": 100}[kind] if q else {"stc": 800, "ntc": 800, "pool": 1500}[kind]
-    cap_rnd = {"stc": 25, "ntc": 25, "pool": 60}[kind] if q else {"stc": 150, "ntc": 150, "pool": 400}[kind]
-    runs = [("dfs", ["--mode", "dfs", "--scenarios", sp, "--bound", 2 if q else 3, "--cap", cap_dfs], len(scns)),
-            ("random", ["--mode", "random", "--scenarios", sp, "--seed", ctx.seed, "--cap", cap_rnd], len(scns))]
-    run_real(ctx, exe, kind, scns, runs, stats)
+# ----------------------------------------------------------------------------- execution machinery
+class Runner:
+    """Driver runs are executed as soon as they are submitted (a few processes in parallel: each driver process runs
+    one thread at a time); TLC runs of the parts proceed concurrently."""
+
+    def __init__(self, ctx, exe):
+        self.ctx, self.exe = ctx, exe
+        self.stats = {}
+        self.lock = threading.Lock()
+        self.tlc_sem = threading.Semaphore(max(2, min(6, vlib.NCPU // 2)))
+        self.pool = ThreadPoolExecutor(max_workers=max(2, min(8, vlib.NCPU // 2)))
+        self.futs = []
+        self.byscn = {}
+
+    def mc(self, module, cfg=None, env=None, workers=2, timeout=2400):
+        with self.tlc_sem:
+            return vlib.model_check(self.ctx, "sched", module, cfg=cfg, env=env, workers=workers, timeout=timeout)
+
+    def submit(self, name, scns, mode, args, total):
+        for s in scns:
+            self.byscn[(s["id"], s.get("wrap", ""))] = s
+        if total <= 0:
+            return
+        job = (name, scns, mode, list(args), total)
+        self.futs.append((job, self.pool.submit(exec_one, self, job)))
+
+
+def parse_deadlock(d):
+    m = re.search(r"deadlock in scenario (\d+) schedule (\[[^\]]*\]) threads:(.*)", d.get("stderr_tail", "") or "")
+    return (int(m.group(1)), json.loads(m.group(2)), m.group(3).strip()) if m else (None, None, None)
+
+
+def exec_one(rn, job):
+    name, scns, mode, args, total = job
+    ctx, rep, stats = rn.ctx, rn.ctx.rep, rn.stats
+    t0 = time.time()
+    lp = os.path.join(ctx.work, "log_%s_%s.ndjson" % (name.replace("+", "_"), mode))
+    sums, deaths = vlib.run_batches(ctx, rn.exe, args, total, lp, timeout=3000, max_deaths=6)
+    execs = sum(s["execs"] for s in sums)
+    with rn.lock:
+        rep.evaluations += execs
+        for s in sums:
+            rep.drift += s["drift"]
+            rep.unguided += s["unguided"] if mode == "guided" else 0
+            stats["spurious"] = stats.get("spurious", 0) + s.get("spurious_wakeups", 0)
+            if s.get("first_drift"):
+                rep.note("%s/%s drift: %s" % (name, mode, s["first_drift"]))
+            if s.get("obs_mismatch"):
+                rep.note("%s/%s: %d executions whose completion order differs from the specification's prediction "
+                         "(sent to the monitor) first: %s" % (name, mode, s["obs_mismatch"], s.get("first_mismatch")))
+                stats["obs_mismatch"] = stats.get("obs_mismatch", 0) + s["obs_mismatch"]
+            for k, v in (s.get("sites") or {}).items():
+                stats.setdefault("sites", {}).setdefault(k, 0)
+                stats["sites"][k] += v
+        for d in deaths:
+            unit = d["x"]
+            sid, sched, where = parse_deadlock(d)
+            scn = next((x for x in scns if x["id"] == sid), None)
+            what = "%s in %s/%s unit %s: %s %s" % (d["event"], name, mode, unit, d.get("asan") or "", d.get("frame") or "")
+            rec = dict(engine="sched", ctx=name, mode=mode, event=d["event"], unit=unit, asan=d.get("asan"), scn=sid,
+                       frame=d.get("frame"), where=d.get("where"), what=what, detail=d.get("stderr_tail", ""),
+                       scenario=scn, schedule=sched, blocked_at=where)
+            if d["event"] == "Hang":
+                # a thread did not reach a schedule point for 20 s: harness/tool problem (never an alarm)
+                stats.setdefault("hangs", []).append(what)
+            elif d["event"] == "Deadlock":
+                # progress failure: the controller proved that no thread can move while an item / thread is unfinished
+                rec["what"] = "lost item / lost wake-up (%s): scenario %s threads blocked at %s" % (what, json.dumps(scn and scn["prog"]), where)
+                rep.violation(rec)
+            else:
+                rep.oos.append(rec)       # C06 is not a lifetime property: memory events are out-of-scope observations
+                rep.note("out-of-scope memory/crash event: " + what + " " + (d.get("stderr_tail", "") or "")[-300:])
+        rep.note("%s/%s: %d executions in %.1fs" % (name, mode, execs, time.time() - t0))
+    return lp
+
+
+def finish(rn):
+    """Wait for the driver runs, then validate ALL recorded executions against SchedMon (a few TLC runs in parallel)."""
+    ctx, rep, stats = rn.ctx, rn.ctx.rep, rn.stats
+    logs = [(job, f.result()) for job, f in rn.futs]
+    rn.pool.shutdown()
+    if stats.get("hangs"):
+        raise vlib.Broken("driver hang (no schedule point reached for 20 s): " + "; ".join(stats["hangs"][:3]))
+    # distribute the logs over k validation files of similar size
+    k = max(1, min(4, vlib.NCPU // 3))
+    sizes = sorted(((os.path.getsize(lp), job, lp) for job, lp in logs), key=lambda x: -x[0])
+    bins = [[0, []] for _ in range(k)]
+    for sz, job, lp in sizes:
+        b = min(bins, key=lambda x: x[0])
+        b[0] += sz
+        b[1].append((job, lp))
+    paths = []
+    sampled = set()
+    for bi, (_, items) in enumerate(bins):
+        if not items:
+            continue
+        allp = os.path.join(ctx.work, "log_all_%d.ndjson" % bi)
+        with open(allp, "w") as out:
+            for job, lp in items:
+                for ln in open(lp):
+                    out.write(ln)
+                    if '"e":"AssertFail"' in ln:
+                        stats["asserts"] = stats.get("asserts", 0) + 1
+                        if stats["asserts"] <= 3:
+                            rep.oos.append(dict(engine="sched", ctx=job[0], mode=job[2], event="AssertFail", detail=ln.strip()))
+                os.remove(lp)
+        paths.append(allp)
+    t0 = time.time()
+
+    def validate(allp):
+        import types                                     # private report: validate_batched is not thread-safe on one
+        cx = types.SimpleNamespace(work=ctx.work, rep=vlib.Report(ctx.prop, ctx.tier, ctx.seed))
+        n, rejected = vlib.validate_batched(cx, "sched", "SchedMon", allp)
+        return n, rejected, cx.rep.traces, cx.rep.events
+
+    with ThreadPoolExecutor(max_workers=len(paths) or 1) as ex:
+        results = list(ex.map(validate, paths))
+    nall = 0
+    for allp, (n, rejected, traces, events) in zip(paths, results):
+        nall += n
+        rep.traces += traces
+        rep.events += events
+        for ex_ in vlib.split_executions(allp):
+            evs = ex_[1]
+            if len(evs) > 4:
+                rep.distinct.add(hash("".join(evs[1:-1])))
+            if len(sampled) < 3 and len(evs) > 8 and '"mode":"random"' in evs[0]:
+                hdr = json.loads(evs[0])
+                if hdr.get("ctx") not in sampled:
+                    sampled.add(hdr.get("ctx"))
+                    rep.sample(dict(kind="recorded-trace", ctx=hdr.get("ctx"), events=[json.loads(x) for x in evs[:40]]), cap=3)
+        for rj in rejected:
+            evs = rj["events"]
+            hdr = evs[0] if evs else {}
+            sched = [e.get("sched") for e in evs if e.get("e") == "End"]
+            bad = evs[rj["prefix"]] if rj.get("prefix") is not None and rj["prefix"] < len(evs) else None
+            sid, kind, mode, wrap = hdr.get("scn"), hdr.get("ctx"), hdr.get("mode"), hdr.get("wrap", "")
+            scn = rn.byscn.get((sid, wrap))
+            rep.violation(dict(engine="sched", ctx=kind, wrap=wrap, mode=mode, event="MonitorReject", unit=hdr.get("x"), k=hdr.get("k"), scn=sid,
+                               what="SchedMon rejects an execution of %s%s (scenario %s) recorded in %s mode at event %s (matched %s of %s events)"
+                                    % (kind, ("+" + wrap) if wrap else "", json.dumps(scn and scn["prog"]), mode, json.dumps(bad), rj.get("prefix"), rj.get("total")),
+                               scenario=scn, schedule=sched[0] if sched else None, rejected_event=bad, events=evs))
+        os.remove(allp)
+    if stats.get("asserts"):
+        rep.note("out-of-scope: %d UNIFEX_ASSERT failures recorded (execution continued, judged by the monitor)" % stats["asserts"])
+    rep.note("validation of %d executions against SchedMon (%d TLC runs in parallel): %.1fs" % (nall, len(paths), time.time() - t0))
+
+
+def behaviours_from_edges(ctx, edges, n_cover, n_random, idmap=None, drop_scn=()):
+    """edge log -> distinct complete behaviours: a sample of the edge-covering walks + seeded random walks.
+    A spurious wake-up of the specification ("spur") has no step of its own in the real code: the thread's following
+    step is marked '!' (resume although not signalled)."""
+    adj, inits, nedges = vlib.read_edges(edges)
+    os.remove(edges)
+    walks = vlib.edge_cover(adj, inits)
+    ncover = len(walks)
+    if n_cover is not None and len(walks) > n_cover:
+        walks = ctx.rng.sample(walks, n_cover)
+    if n_random:
+        walks += vlib.random_walks(adj, inits, n_random, ctx.rng)
+    out, seen = [], set()
+    for w in walks:
+        if not w or not w[-1]["done"] or w[0]["scn"] in drop_scn:
+            continue
+        sched, spur = [], set()
+        for e in w:
+            th = idmap(e["th"]) if idmap else e["th"]
+            if e["pc"] == "spur":
+                spur.add(th)
+                continue
+            pc = e["pc"]
+            if th in spur:
+                spur.discard(th)
+                pc += "!"
+            sched.append([th, pc])
+        k = json.dumps([w[0]["scn"], sched])
+        if k in seen:
+            continue
+        seen.add(k)
+        out.append(dict(scn=w[0]["scn"], sched=sched, ran=w[-1]["obs"]["ran"]))
+    return out, nedges, ncover
+
+
+def write_lines(path, recs):
+    with open(path, "w") as f:
+        for r in recs:
+            f.write(json.dumps(r) + "\n")
+
+
+def dump(ctx, name, obj):
+    p = os.path.join(ctx.work, name)
+    json.dump(obj, open(p, "w"))
+    return p
+
+
+# ----------------------------------------------------------------------------- parts
+def part_mel(rn):
+    ctx, rep, q = rn.ctx, rn.ctx.rep, rn.ctx.quick
+    scns = gen_mel(ctx.tier)
+    sp = dump(ctx, "mel_scenarios.json", scns)
+    rn.submit("mel", scns, "dfs", ["--mode", "dfs", "--scenarios", sp, "--bound", 2 if q else 3, "--cap", 40 if q else 400], len(scns))
+    rn.submit("mel", scns, "random", ["--mode", "random", "--scenarios", sp, "--seed", ctx.seed, "--cap", 20 if q else 100], len(scns))
+    # the same programs through the type-erased / sub-scheduler wrappers
+    sub = scns[:22]
+    for wrap, dcap, rcap in (("any", 15, 8), ("ref", 8, 5), ("sub", 8, 5)):
+        ws = wrapped(sub, wrap)
+        wp = dump(ctx, "mel_%s_scenarios.json" % wrap, ws)
+        rn.submit("mel+" + wrap, ws, "dfs", ["--mode", "dfs", "--scenarios", wp, "--bound", 2, "--cap", dcap if q else dcap * 10], len(ws))
+        rn.submit("mel+" + wrap, ws, "random", ["--mode", "random", "--scenarios", wp, "--seed", ctx.seed + 1, "--cap", rcap if q else rcap * 8], len(ws))
+    edges = os.path.join(ctx.work, "mel_edges.ndjson")
+    rn.mc("ManualEventLoopMC", env={"SCENARIOS": sp, "EDGES": edges}, workers=1)
+    behs, nedges, ncover = behaviours_from_edges(ctx, edges, 400 if q else 8000, 0 if q else 1000)
+    bp = os.path.join(ctx.work, "mel_behaviours.ndjson")
+    write_lines(bp, behs)
+    nspur = sum(1 for b in behs for s in b["sched"] if s[1].endswith("!"))
+    rep.sample(dict(kind="tlc-behaviour", ctx="mel", scenario=rn.byscn.get((behs[0]["scn"], "")), schedule=behs[0]["sched"], expect_ran=behs[0]["ran"]), cap=1)
+    rep.note("mel: %d scenarios, edges exported %d, edge-covering walks %d, behaviours replayed %d (with %d spurious wake-ups)"
+             % (len(scns), nedges, ncover, len(behs), nspur))
+    rn.submit("mel", scns, "guided", ["--mode", "guided", "--scenarios", sp, "--behaviours", bp], len(behs))
+    # the TLC behaviours replayed through any_scheduler: type erasure adds no schedule point, drift must stay 0
+    ws = wrapped(scns, "any")
+    wp = dump(ctx, "mel_any_all_scenarios.json", ws)
+    ab = behs[::4] if q else behs[::2]
+    abp = os.path.join(ctx.work, "mel_any_behaviours.ndjson")
+    write_lines(abp, ab)
+    rn.submit("mel+any", ws, "guided", ["--mode", "guided", "--scenarios", wp, "--behaviours", abp], len(ab))
+    rn.mc("ManualEventLoopLive", cfg="ManualEventLoopLiveQ.cfg" if q else "ManualEventLoopLive.cfg", env={"SCENARIOS": sp})
+
+
+def part_tramp(rn):
+    """trampoline_scheduler / inline_scheduler: TLC enumerates the inputs and predicts the completion sequence."""
+    ctx, rep = rn.ctx, rn.ctx.rep
+    out = os.path.join(ctx.work, "tramp_inputs.ndjson")
+    env = {"OUT": out, "MAXNODES": 4 if ctx.quick else 5, "MAXCHAIN": 12}
+    rn.mc("TrampolineMC", env=env, workers=1)
+    scns, behs = [], []
+    for ln in open(out):
+        r = json.loads(ln)
+        sc = r["scn"]
+        if any(x > sc["items"] for x in sc["stopped"]):
+            continue
+        prog = [X(x) for x in sc["stopped"]] + [S(x) for x in sc["roots"]]
+        d = dict(id=BASE["tramp"] + len(scns) + 1, ctx="tramp" if sc["maxd"] > 0 else "inline", items=sc["items"], maxd=sc["maxd"],
+                 prog=[prog], body=[[S(c) for c in b] for b in sc["body"]])
+        scns.append(d)
+        behs.append(dict(scn=d["id"], ran=[[x[0], x[1]] for x in r["ran"]]))
+    os.remove(out)
+    sp = dump(ctx, "tramp_scenarios.json", scns)
+    bp = os.path.join(ctx.work, "tramp_behaviours.ndjson")
+    write_lines(bp, behs)
+    ninl = sum(1 for s in scns if s["ctx"] == "inline")
+    rep.note("tramp/inline: %d inputs enumerated by TLC (%d for inline_scheduler; chains 0..12, forests <= %d nodes, depth limits "
+             "0(inline)..4, optionally item 1 or 2 already stopped)" % (len(scns), ninl, env["MAXNODES"]))
+    rep.sample(dict(kind="tlc-input", ctx="tramp", scenario=scns[len(scns) // 2], expect_ran=behs[len(scns) // 2]["ran"]), cap=1)
+    rn.submit("tramp", scns, "seq", ["--mode", "seq", "--scenarios", sp, "--behaviours", bp], len(behs))
+    # the same inputs through any_scheduler and schedule_with_subscheduler (every 3rd input)
+    for wrap in ("any", "sub"):
+        ws = wrapped(scns, wrap)
+        wp = dump(ctx, "tramp_%s_scenarios.json" % wrap, ws)
+        wb = behs[(1 if wrap == "any" else 2)::3]
+        wbp = os.path.join(ctx.work, "tramp_%s_behaviours.ndjson" % wrap)
+        write_lines(wbp, wb)
+        rn.submit("tramp+" + wrap, ws, "seq", ["--mode", "seq", "--scenarios", wp, "--behaviours", wbp], len(wb))
+
+
+def part_aq(rn):
+    ctx, rep, q = rn.ctx, rn.ctx.rep, rn.ctx.quick
+    scns = gen_aq(ctx.tier)
+    sp = dump(ctx, "aq_scenarios.json", scns)
+    rn.submit("aq", scns, "dfs", ["--mode", "dfs", "--scenarios", sp, "--bound", 2 if q else 3, "--cap", 70 if q else 1000], len(scns))
+    rn.submit("aq", scns, "random", ["--mode", "random", "--scenarios", sp, "--seed", ctx.seed, "--cap", 30 if q else 200], len(scns))
+    has_rev_hooks = "sched.aq.r_load" in open(os.path.join(ctx.repo, "include/unifex/detail/atomic_intrusive_queue.hpp")).read()
+    mc = [s for s in scns if s["items"] <= 3] if q else scns
+    spm = dump(ctx, "aq_scenarios_mc.json", mc)
+    # export: 2 producers (3 items) per consumer flavour + the try_lock scenario; everything in the thorough tier
+    ex = [s for s in mc if len(s["prog"]) <= 3] if q else [s for s in mc if s["items"] <= 3]
+    if not has_rev_hooks:
+        ex = [s for s in ex if not any(o[0] == "consume3" for p in s["prog"] for o in p)]
+        rep.note("aq: the tree has no sched.aq.r_* hooks in dequeue_all_reversed (hooks.patch not applied): consume3 scenarios "
+                 "run without guided replay and with fewer interleavings")
+    spe = dump(ctx, "aq_scenarios_ex.json", ex)
+    edges = os.path.join(ctx.work, "aq_edges.ndjson")
+    rn.mc("AtomicQueueMC", cfg="AtomicQueueExport.cfg", env={"SCENARIOS": spe, "EDGES": edges}, workers=1)
+    behs, nedges, ncover = behaviours_from_edges(ctx, edges, 150 if q else 3000, 150 if q else 2000)
+    bp = os.path.join(ctx.work, "aq_behaviours.ndjson")
+    write_lines(bp, behs)
+    rep.note("aq: %d scenarios (%d model-checked, %d exported), edges exported %d, edge-covering walks %d, behaviours replayed %d"
+             % (len(scns), len(mc), len(ex), nedges, ncover, len(behs)))
+    rn.submit("aq", scns, "guided", ["--mode", "guided", "--scenarios", sp, "--behaviours", bp], len(behs))
+    rn.mc("AtomicQueueMC", env={"SCENARIOS": spm})
+    rn.mc("AtomicQueueLive", cfg="AtomicQueueLive.cfg", env={"SCENARIOS": spe if q else spm})
+
+
+def nobody(scns):
+    return [s for s in scns if not any(s["body"])]
+
+
+def part_pool(rn):
+    ctx, rep, q = rn.ctx, rn.ctx.rep, rn.ctx.quick
+    scns = gen_ctx("pool", ctx.tier)
+    sp = dump(ctx, "pool_scenarios.json", scns)
+    rn.submit("pool", scns, "dfs", ["--mode", "dfs", "--scenarios", sp, "--bound", 2 if q else 3, "--cap", 80 if q else 1500], len(scns))
+    rn.submit("pool", scns, "random", ["--mode", "random", "--scenarios", sp, "--seed", ctx.seed, "--cap", 50 if q else 400], len(scns))
+    for wrap, dcap, rcap in (("any", 20, 12), ("ref", 10, 8), ("sub", 10, 8)):
+        ws = wrapped(scns[:6], wrap)
+        wp = dump(ctx, "pool_%s_scenarios.json" % wrap, ws)
+        rn.submit("pool+" + wrap, ws, "dfs", ["--mode", "dfs", "--scenarios", wp, "--bound", 2, "--cap", dcap if q else dcap * 10], len(ws))
+        rn.submit("pool+" + wrap, ws, "random", ["--mode", "random", "--scenarios", wp, "--seed", ctx.seed + 2, "--cap", rcap if q else rcap * 8], len(ws))
+    two = [s for s in nobody(scns) if s.get("workers", 2) == 2]
+    # export for guided replay: 1 harness thread (quick) / also 2-3 harness threads with 2 items (thorough)
+    ex = [s for s in two if len(s["prog"]) == 1 and s["items"] <= 2] if q else \
+         [s for s in two if len(s["prog"]) == 1 or (s["items"] == 2 and s["prog"][0][0][0] == "awaitacc")]
+    spe = dump(ctx, "pool_ex.json", ex)
+    edges = os.path.join(ctx.work, "pool_edges.ndjson")
+    rn.mc("StaticThreadPoolMC", cfg="StaticThreadPoolExport.cfg", env={"SCENARIOS": spe, "EDGES": edges}, workers=1)
+    behs, nedges, ncover = behaviours_from_edges(ctx, edges, 250 if q else 4000, 100 if q else 2000, idmap=lambda t: t + 89 if t > 10 else t)
+    bp = os.path.join(ctx.work, "pool_behaviours.ndjson")
+    write_lines(bp, behs)
+    rep.note("pool: %d scenarios, %d exported, edges %d, edge-covering walks %d, behaviours replayed %d" % (len(scns), len(ex), nedges, ncover, len(behs)))
+    rn.submit("pool", scns, "guided", ["--mode", "guided", "--scenarios", sp, "--behaviours", bp], len(behs))
+    mc = [s for s in two if s["items"] <= 2] if q else two      # 3 items: 1e6 states, 4 items: 5e6 states -> thorough tier
+    rn.mc("StaticThreadPoolMC", env={"SCENARIOS": dump(ctx, "pool_mc.json", mc)}, workers=max(2, vlib.NCPU // 2) if not q else 2)
+    live = [s for s in mc if s["items"] <= 2][:2] if q else [s for s in mc if s["items"] <= 2]
+    rn.mc("StaticThreadPoolLive", cfg="StaticThreadPoolLive.cfg", env={"SCENARIOS": dump(ctx, "pool_live.json", live)})
+    rep.note("pool: model-checked %d scenarios (2 workers), liveness on %d" % (len(mc), len(live)))
+
+
+def part_ntc(rn):
+    ctx, rep, q = rn.ctx, rn.ctx.rep, rn.ctx.quick
+    scns = gen_ctx("ntc", ctx.tier)
+    sp = dump(ctx, "ntc_scenarios.json", scns)
+    rn.submit("ntc", scns, "dfs", ["--mode", "dfs", "--scenarios", sp, "--bound", 2 if q else 3, "--cap", 50 if q else 800], len(scns))
+    rn.submit("ntc", scns, "random", ["--mode", "random", "--scenarios", sp, "--seed", ctx.seed, "--cap", 20 if q else 150], len(scns))
+    ws = wrapped(scns[:5], "any")
+    wp = dump(ctx, "ntc_any_scenarios.json", ws)
+    rn.submit("ntc+any", ws, "dfs", ["--mode", "dfs", "--scenarios", wp, "--bound", 2, "--cap", 10 if q else 100], len(ws))
+    mc = nobody(gen_ctx("ntc", "thorough"))
+    ex = [s for s in mc if s["items"] <= 2] if q else mc
+    spe = dump(ctx, "ntc_ex.json", ex)
+    edges = os.path.join(ctx.work, "ntc_edges.ndjson")
+    rn.mc("NewThreadMC", cfg="NewThreadExport.cfg", env={"SCENARIOS": spe, "EDGES": edges}, workers=1)
+    behs, nedges, ncover = behaviours_from_edges(ctx, edges, 200 if q else 4000, 100 if q else 2000)
+    bp = os.path.join(ctx.work, "ntc_behaviours.ndjson")
+    write_lines(bp, behs)
+    allp = dump(ctx, "ntc_all_scenarios.json", mc)
+    rep.note("ntc: %d scenarios, %d exported, edges %d, edge-covering walks %d, behaviours replayed %d" % (len(scns), len(ex), nedges, ncover, len(behs)))
+    rn.submit("ntc", mc, "guided", ["--mode", "guided", "--scenarios", allp, "--behaviours", bp], len(behs))
+    spm = dump(ctx, "ntc_mc.json", mc)
+    rn.mc("NewThreadMC", env={"SCENARIOS": spm})
+    rn.mc("NewThreadLive", cfg="NewThreadLive.cfg", env={"SCENARIOS": spe if q else spm})
+
+
+def part_stc(rn):
+    ctx, q = rn.ctx, rn.ctx.quick
+    scns = gen_ctx("stc", ctx.tier)
+    sp = dump(ctx, "stc_scenarios.json", scns)
+    rn.submit("stc", scns, "dfs", ["--mode", "dfs", "--scenarios", sp, "--bound", 2 if q else 3, "--cap", 50 if q else 800], len(scns))
+    rn.submit("stc", scns, "random", ["--mode", "random", "--scenarios", sp, "--seed", ctx.seed, "--cap", 20 if q else 150], len(scns))
+    for wrap in ("any", "sub"):
+        ws = wrapped(scns[:5], wrap)
+        wp = dump(ctx, "stc_%s_scenarios.json" % wrap, ws)
+        rn.submit("stc+" + wrap, ws, "dfs", ["--mode", "dfs", "--scenarios", wp, "--bound", 2, "--cap", 10 if q else 100], len(ws))
 
 
 def build_driver(ctx):
-    import hashlib
-    # seam.hpp is included by the driver, not listed as a source: make the build cache see its content
-    here = os.path.dirname(os.path.abspath(__file__))
-    h = hashlib.sha1(open(os.path.join(here, "seam.hpp"), "rb").read() + open(os.path.join(here, "assert_hook.hpp"), "rb").read()).hexdigest()[:12]
-    hook = os.path.join(os.path.dirname(os.path.abspath(__file__)), "assert_hook.hpp")
+    # seam.hpp / assert_hook.hpp are included by the driver, not listed as sources: make the build cache see their content
+    h = hashlib.sha1(open(os.path.join(HERE, "seam.hpp"), "rb").read() + open(os.path.join(HERE, "assert_hook.hpp"), "rb").read()).hexdigest()[:12]
+    hook = os.path.join(HERE, "assert_hook.hpp")
     return vlib.build(ctx, "sched_driver", ["engines/sched/driver.cpp"], lib=LIB, extra=["-rdynamic", "-include", hook],
                       libs=("-lpthread", "-ldl"), defs=["SCHED_SEAM_HASH=0x" + h])
 
 
-def replay(ctx, exe, stats):
+def replay(rn):
     """./check C06 --replay <violation file>: re-execute exactly the recorded scenario + schedule."""
-    rr = ctx.replay
+    rr = rn.ctx.replay
     scn = rr.get("scenario")
     if not scn:
         raise vlib.Broken("replay file has no scenario")
-    sp = os.path.join(ctx.work, "replay_scn.json")
-    json.dump([scn], open(sp, "w"))
+    sp = dump(rn.ctx, "replay_scn.json", [scn])
     args = ["--mode", "replay", "--scenarios", sp, "--scn", scn["id"], "--sched", json.dumps(rr.get("schedule") or [])]
-    run_real(ctx, exe, scn["ctx"], [scn], [("replay", args, 1)], stats)
-    flush_runs(ctx, stats)
+    rn.submit(scn["ctx"], [scn], "replay", args, 1)
+    finish(rn)
 
 
 def run(ctx):
-    from concurrent.futures import ThreadPoolExecutor
     rep = ctx.rep
     rep.assume("sequentially consistent interleavings at schedule-point granularity (mutex acquisition / release, try_lock, "
                "cond_wait, thread creation/join, load/CAS/exchange on the atomic queue); weak-memory reorderings not explored")
-    rep.assume("condition variables: no spurious wake-ups explored; notify_one wakes any one waiter; "
+    rep.assume("condition variables: notify_one wakes any one waiter; spurious wake-ups are explored (nondeterministic action in "
+               "ManualEventLoop.tla, controller choice at every cond_wait in DFS/random schedules: <=1 resp. <=2 per execution); "
                "std::try_to_lock fails iff the mutex is held")
-    stats = {}
     exe = build_driver(ctx)
+    rn = Runner(ctx, exe)
     if ctx.replay:
-        return replay(ctx, exe, stats)
-    parts = [lambda: part_mel(ctx, exe, stats), lambda: part_tramp(ctx, exe, stats), lambda: part_aq(ctx, exe, stats),
-             lambda: part_specs(ctx)]
+        return replay(rn)
+    parts = dict(mel=part_mel, tramp=part_tramp, aq=part_aq, pool=part_pool, ntc=part_ntc, stc=part_stc)
     only = set(filter(None, os.environ.get("SCHED_PARTS", "").split(",")))      # development aid: restrict the parts
-    names = ["mel", "tramp", "aq", "specs"]
-    parts = [p for p, nm in zip(parts, names) if not only or nm in only]
-    with ThreadPoolExecutor(max_workers=max(1, min(vlib.NCPU, 4))) as ex:      # TLC runs of the parts in parallel
-        for f in [ex.submit(p) for p in parts]:
-            f.result()
-    for kind in ("stc", "pool", "ntc"):
-        if not only or kind in only:
-            part_ctx(ctx, exe, stats, kind)
     if only:
+        parts = {k: v for k, v in parts.items() if k in only}
         rep.note("restricted to parts: " + ",".join(sorted(only)))
-    flush_runs(ctx, stats)
+    with ThreadPoolExecutor(max_workers=len(parts)) as ex:
+        futs = [ex.submit(p, rn) for p in parts.values()]
+        errs = []
+        for f in futs:
+            try:
+                f.result()
+            except Exception as e:      # let the other parts finish, then report
+                errs.append(e)
+    if errs:
+        rn.pool.shutdown(wait=True)
+        raise errs[0]
+    finish(rn)
     rep.exhaustive = True
+    stats = rn.stats
     if stats.get("sites"):
         rep.note("schedule points exercised: " + json.dumps(stats["sites"], sort_keys=True))
+    rep.note("spurious wake-ups injected by the controller: %d" % stats.get("spurious", 0))
     rep.rule("executions = guided replays of TLC behaviours + DFS(preemption-bounded) + seeded random schedules of the real "
              "contexts with all threads controlled; distinct_nontrivial = distinct recorded event sequences")
